@@ -84,6 +84,25 @@ def snapshot(nodes):
     return out
 
 
+# argument names used for Call nodes: (string, id up to case, is lower case)
+NAMES = [("a", 0, 1), ("b", 1, 1), ("foo", 2, 1), ("Foo", 2, 0)]
+NAME_OF = {n: (i, l) for n, i, l in NAMES}
+
+
+def names_snapshot(nodes):
+    """raw `_argument_names` of every call-like node (read without reconciling)"""
+    idx = {id(n): i for i, n in enumerate(nodes)}
+    out = []
+    for n in nodes:
+        raw = getattr(n, "_argument_names", None)
+        if raw is None:
+            out.append([])
+        else:
+            out.append([[idx.get(e[0], -2)] + ([-1, 0] if e[1] is None else list(NAME_OF.get(e[1], (-3, 0))))
+                        for e in raw])
+    return out
+
+
 def wf_reason(nodes):
     """The property's state clauses on the real objects; None if they hold."""
     idx = {id(n): i for i, n in enumerate(nodes)}
@@ -122,42 +141,67 @@ def wf_reason(nodes):
     return None
 
 
-def apply_real(nodes, op):
+LIST_OPS = ("append", "insert", "extend", "iadd", "setitem", "delitem", "pop", "remove", "reverse", "clear",
+            "sort", "imul", "setslice", "delslice")
+
+
+def apply_real(nodes, op, handles=None):
+    """Execute one operation on the real objects.  `handles[p]` is the ChildrenList handle
+    `lst = node.children` taken when the pool was built and never re-taken; an operation named
+    `h:<method>` goes through it (also after `children =` assignments on that node)."""
     from psyclone.errors import GenerationError
     name = op[0]
+    via_handle = name.startswith("h:")
+    if via_handle:
+        name = name[2:]
+        if handles is None:
+            handles = take_handles(nodes)
+
+    def kids(p):
+        if via_handle and handles is not None:
+            return handles[p]
+        return nodes[p].children
     try:
         if name == "append":
-            nodes[op[1]].children.append(nodes[op[2]])
+            kids(op[1]).append(nodes[op[2]])
         elif name == "insert":
-            nodes[op[1]].children.insert(op[2], nodes[op[3]])
+            kids(op[1]).insert(op[2], nodes[op[3]])
         elif name == "addchild":
             if len(op) == 3:
                 nodes[op[1]].addchild(nodes[op[2]])
             else:
                 nodes[op[1]].addchild(nodes[op[2]], op[3])
         elif name == "extend":
-            nodes[op[1]].children.extend([nodes[i] for i in op[2]])
+            kids(op[1]).extend([nodes[i] for i in op[2]])
         elif name == "iadd":
-            nodes[op[1]].children += [nodes[i] for i in op[2]]
+            if via_handle:
+                lst = handles[op[1]]
+                lst += [nodes[i] for i in op[2]]
+            else:
+                nodes[op[1]].children += [nodes[i] for i in op[2]]
         elif name == "setitem":
-            nodes[op[1]].children[op[2]] = nodes[op[3]]
+            kids(op[1])[op[2]] = nodes[op[3]]
         elif name == "delitem":
-            del nodes[op[1]].children[op[2]]
+            del kids(op[1])[op[2]]
         elif name == "pop":
             if op[2] == -1 and len(op) > 3:
-                nodes[op[1]].children.pop()
+                kids(op[1]).pop()
             else:
-                nodes[op[1]].children.pop(op[2])
+                kids(op[1]).pop(op[2])
         elif name == "remove":
-            nodes[op[1]].children.remove(nodes[op[2]])
+            kids(op[1]).remove(nodes[op[2]])
         elif name == "reverse":
-            nodes[op[1]].children.reverse()
+            kids(op[1]).reverse()
         elif name == "clear":
-            nodes[op[1]].children.clear()
+            kids(op[1]).clear()
         elif name == "sort":
-            nodes[op[1]].children.sort()
+            kids(op[1]).sort()
         elif name == "imul":
-            nodes[op[1]].children *= 2
+            if via_handle:
+                lst = handles[op[1]]
+                lst *= 2
+            else:
+                nodes[op[1]].children *= 2
         elif name == "setchildren":
             nodes[op[1]].children = [nodes[i] for i in op[2]]
         elif name == "popall":
@@ -165,7 +209,33 @@ def apply_real(nodes, op):
         elif name == "detach":
             nodes[op[1]].detach()
         elif name == "replace":
-            nodes[op[1]].replace_with(nodes[op[2]])
+            if len(op) == 3:
+                nodes[op[1]].replace_with(nodes[op[2]])
+            else:
+                nodes[op[1]].replace_with(nodes[op[2]], keep_name_in_context=bool(op[3]))
+        elif name == "appendnamed":
+            nm = None if len(op) < 4 or op[3] < 0 else NAMES[op[3]][0]
+            nodes[op[1]].append_named_arg(nm, nodes[op[2]])
+        elif name == "insertnamed":
+            nm = None if len(op) < 5 or op[4] < 0 else NAMES[op[4]][0]
+            nodes[op[1]].insert_named_arg(nm, nodes[op[3]], op[2])
+        elif name == "replacenamed":
+            nodes[op[1]].replace_named_arg(NAMES[op[2]][0], nodes[op[3]])
+        elif name == "argnames":
+            nodes[op[1]].argument_names  # pylint: disable=pointless-statement
+        elif name == "setslice":
+            kids(op[1])[op[2]:op[3]] = [nodes[i] for i in op[4]]
+        elif name == "delslice":
+            if len(op) > 4:
+                kids(op[1]).pop(slice(op[2], op[3]))
+            else:
+                del kids(op[1])[op[2]:op[3]]
+        elif name == "setchildren-nonlist":
+            nodes[op[1]].children = tuple(nodes[i] for i in op[2])
+        elif name == "replace-nonnode":
+            nodes[op[1]].replace_with("not a node")
+        elif name == "replace-badflag":
+            nodes[op[1]].replace_with(nodes[op[2]], keep_name_in_context="yes")
         else:
             raise common.Infra("unknown op " + str(op))
         return "ok"
@@ -181,16 +251,21 @@ def apply_real(nodes, op):
         return "other:" + type(e).__name__
 
 
+def take_handles(nodes):
+    return [n.children for n in nodes]
+
+
 def run_history(spec, ops):
     """Run ops on a fresh pool. -> (trace, failure) with trace = [(outcome, snapshot)] and failure =
     None or dict(step, observed, expected)."""
     nodes = build_pool(spec)
+    handles = take_handles(nodes)
     trace = []
     before = snapshot(nodes)
     for k, op in enumerate(ops):
-        out = apply_real(nodes, op)
+        out = apply_real(nodes, op, handles)
         after = snapshot(nodes)
-        trace.append((out, after))
+        trace.append((out, after, names_snapshot(nodes)))
         fail = judge(nodes, k, op, out, before, after)
         if fail:
             return trace, fail
@@ -216,7 +291,9 @@ def judge(nodes, k, op, out, before, after):
 # ---------------------------------------------------------------------------------------------
 MAIN_WEIGHTS = [("append", 8), ("insert", 12), ("addchild", 8), ("extend", 6), ("iadd", 3), ("setitem", 9),
                 ("delitem", 8), ("pop", 10), ("remove", 6), ("reverse", 3), ("clear", 2), ("sort", 1),
-                ("imul", 1), ("setchildren", 6), ("popall", 2), ("detach", 8), ("replace", 8)]
+                ("imul", 1), ("setchildren", 6), ("popall", 2), ("detach", 8), ("replace", 9),
+                ("appendnamed", 4), ("insertnamed", 4), ("replacenamed", 2), ("argnames", 1), ("setslice", 1), ("delslice", 1),
+                ("setchildren-nonlist", 1), ("replace-nonnode", 1), ("replace-badflag", 1)]
 SETUP_WEIGHTS = [("append", 6), ("insert", 3), ("addchild", 3), ("extend", 2)]
 
 
@@ -264,6 +341,12 @@ class OpGen:
         return self.any()
 
     def op(self, weights):
+        o = self.op0(weights)
+        if o[0] in LIST_OPS and self.rng.random() < 0.5:
+            o[0] = "h:" + o[0]      # through the handle taken when the pool was built
+        return o
+
+    def op0(self, weights):
         rng, nodes = self.rng, self.nodes
         name = rng.choice([n for n, w in weights for _ in range(w)])
         if name == "append":
@@ -306,8 +389,10 @@ class OpGen:
                 kid = rng.choice(kids)
                 x = next(i for i, n in enumerate(nodes) if n is kid)
             elif kids and r < 0.85:
-                # a different node that compares equal (==) to one of the children, if there is one
-                c = [i for i, n in enumerate(nodes) if all(n is not k for k in kids) and any(n == k for k in kids)]
+                # a different node of the same class as one of the children (no `==`: Call.__eq__
+                # would reconcile the argument names behind the model's back)
+                c = [i for i, n in enumerate(nodes) if all(n is not k for k in kids)
+                     and any(type(n) is type(k) for k in kids)]
                 x = rng.choice(c) if c else self.any()
             else:
                 x = self.any()
@@ -342,7 +427,41 @@ class OpGen:
                 y = self.good(pi, nodes[x].position)
             else:
                 y = self.any()
-            return ["replace", x, y]
+            r = rng.random()
+            return ["replace", x, y] if r < 0.4 else ["replace", x, y, 1 if r < 0.7 else 0]
+        if name in ("appendnamed", "insertnamed"):
+            calls = [i for i, n in enumerate(nodes) if hasattr(n, "append_named_arg")]
+            if not calls:
+                return self.op0(weights)
+            p = rng.choice(calls)
+            n = len(nodes[p].children)
+            v = -1 if rng.random() < 0.5 else rng.randrange(len(NAMES))
+            if name == "appendnamed":
+                return ["appendnamed", p, self.good(p, n), v]
+            i = rng.randint(-n - 3, n + 1)
+            pos = max(0, n + i + 1) if i + 1 < 0 else min(i + 1, n)
+            return ["insertnamed", p, i, self.good(p, pos), v]
+        if name in ("replacenamed", "argnames"):
+            calls = [i for i, n in enumerate(nodes) if hasattr(n, "append_named_arg")]
+            if not calls:
+                return self.op0(weights)
+            p = rng.choice(calls)
+            if name == "argnames":
+                return ["argnames", p]
+            return ["replacenamed", p, rng.randrange(len(NAMES)), self.good(p, rng.randint(1, 3))]
+        if name in ("setslice", "delslice"):
+            p = self.nonempty()
+            i, j = sorted((self.index(p), self.index(p)))
+            if name == "setslice":
+                return ["setslice", p, i, j, [self.any() for _ in range(rng.randint(0, 2))]]
+            return ["delslice", p, i, j] if rng.random() < 0.7 else ["delslice", p, i, j, "pop"]
+        if name == "setchildren-nonlist":
+            p = self.container()
+            return [name, p, [self.good(p, 0)] if rng.random() < 0.7 else []]
+        if name == "replace-nonnode":
+            return [name, self.any()]
+        if name == "replace-badflag":
+            return [name, self.any(), self.any()]
         raise common.Infra("generator: " + name)
 
 
@@ -351,6 +470,7 @@ def random_history(rng, malformed=False):
     spec = random_spec(rng)
     nodes = build_pool(spec)
     g = OpGen(rng, nodes)
+    handles = take_handles(nodes)
     ops, trace = [], []
     n_setup = rng.randint(0, 14)
     n_main = rng.randint(1, 30)
@@ -360,15 +480,16 @@ def random_history(rng, malformed=False):
             op = g.op(MAIN_WEIGHTS)
             # malformed stream: operands chosen blindly
             for j in range(1, len(op)):
-                if isinstance(op[j], int) and rng.random() < 0.5 and not (op[0] in ("insert", "setitem", "delitem", "pop") and j == 2) \
-                        and not (op[0] == "addchild" and j == 3):
+                base = op[0][2:] if op[0].startswith("h:") else op[0]
+                if isinstance(op[j], int) and rng.random() < 0.5 and not (base in ("insert", "setitem", "delitem", "pop", "insertnamed") and j == 2) \
+                        and not (base in ("addchild", "replace") and j == 3) and base not in ("setslice", "delslice", "appendnamed", "insertnamed", "replacenamed", "argnames"):
                     op[j] = g.any()
         else:
             op = g.op(SETUP_WEIGHTS if k < n_setup else MAIN_WEIGHTS)
-        out = apply_real(nodes, op)
+        out = apply_real(nodes, op, handles)
         after = snapshot(nodes)
         ops.append(op)
-        trace.append((out, after))
+        trace.append((out, after, names_snapshot(nodes)))
         fail = judge(nodes, k, op, out, before, after)
         if fail:
             return spec, ops, trace, fail
@@ -384,16 +505,35 @@ def kind_ids():
     return {n: i for i, n in enumerate(names)}
 
 
+def to_model(op):
+    name = op[0]
+    via = name.startswith("h:")
+    if via:
+        name = name[2:]
+    if name == "pop":
+        m = ["pop", op[1], op[2]]
+    elif name in ("setslice", "delslice", "setchildren-nonlist"):
+        m = [name, op[1]]
+    elif name == "appendnamed":
+        v = -1 if len(op) < 4 else op[3]
+        m = ["appendnamed", op[1], op[2]] + ([-1, 0] if v < 0 else list(NAMES[v][1:]))
+    elif name == "insertnamed":
+        v = -1 if len(op) < 5 else op[4]
+        m = ["insertnamed", op[1], op[2], op[3]] + ([-1, 0] if v < 0 else list(NAMES[v][1:]))
+    elif name == "replacenamed":
+        m = ["replacenamed", op[1]] + list(NAMES[op[2]][1:]) + [op[3]]
+    else:
+        m = [name] + list(op[1:])
+    if via:
+        return ["via", m[1], [m[0]] + m[2:]]
+    return m
+
+
 def model_line(spec, ops, kid):
     nodes = build_pool(spec)
     snap = snapshot(nodes)
-    recs = [[kid[type(n).__name__], s[0], s[1], s[2]] for n, s in zip(nodes, snap)]
-    mops = []
-    for op in ops:
-        if op[0] == "pop":
-            mops.append(["pop", op[1], op[2]])
-        else:
-            mops.append(op)
+    recs = [[kid[type(n).__name__], s[0], s[1], s[2], nm] for n, s, nm in zip(nodes, snap, names_snapshot(nodes))]
+    mops = [to_model(op) for op in ops]
     return sx([recs, mops])
 
 
@@ -404,7 +544,8 @@ def parse_model(line):
         if step == "bad-op":
             res.append(("bad-op", None))
         else:
-            res.append((step[0], [[r[0], r[1], list(r[2])] for r in step[1]]))
+            res.append((step[0], [[r[0], r[1], list(r[2])] for r in step[1]],
+                        [[list(e) for e in nm] for nm in step[2]]))
     return res
 
 
@@ -452,6 +593,9 @@ def corpus_cases():
         # an ancestor added below its own descendant
         ([["IfBlock", None], ["Reference", None], ["Schedule", None]],
          [["extend", 0, [1, 2]], ["append", 2, 0]]),
+        # a handle taken before a `children =` assignment is used after it (fixed by 6dd9337)
+        ([["Schedule", None], ["Assignment", None], ["Assignment", None]],
+         [["h:append", 0, 1], ["setchildren", 0, [1]], ["h:append", 0, 2], ["h:pop", 0, -2]]),
         # setitem with a negative index
         ([["Loop", None], ["Reference", None], ["Reference", None], ["Reference", None], ["Schedule", None], ["Literal", None]],
          [["extend", 0, [1, 2, 3, 4]], ["setitem", 0, -2, 5], ["setitem", 0, -1, 5]]),
@@ -477,11 +621,26 @@ EXH_POOLS = [
     ([["IfBlock", None], ["Reference", None], ["Schedule", None], ["Schedule", None], ["Assignment", None],
       ["Call", None], ["Reference", None], ["Assignment", 2]],
      [["extend", 0, [1, 2, 3]], ["append", 2, 4], ["append", 5, 6]], [0, 2, 5]),
+    # a Call `r(lit, foo=lit)`: replace_with on its children with a named last argument
+    ([["Call", None], ["Reference", None], ["Literal", None], ["Literal", None], ["Reference", None],
+      ["Literal", None], ["Schedule", None]],
+     [["append", 0, 1], ["appendnamed", 0, 2, -1], ["appendnamed", 0, 3, 3]], [0]),
 ]
 
 
 def enum_ops(nodes, parents=None, short=False):
-    """every operation (all operands, all indices in [-len-2, len+2]) applicable in this state"""
+    """every operation (all operands, all indices in [-len-2, len+2]) applicable in this state;
+    list methods both on the node and through the handle (short: through the handle only)"""
+    for o in enum_ops0(nodes, parents, short):
+        if o[0] in LIST_OPS:
+            if not short:
+                yield o
+            yield ["h:" + o[0]] + o[1:]
+        else:
+            yield o
+
+
+def enum_ops0(nodes, parents=None, short=False):
     N = len(nodes)
     lists = [[]] + [[a] for a in range(N)]
     if not short:
@@ -509,10 +668,26 @@ def enum_ops(nodes, parents=None, short=False):
             yield ["setchildren", p, xs]
             if len(xs) == 1:
                 yield ["iadd", p, xs]
+        yield ["setslice", p, 0, 1, [0]]
+        yield ["delslice", p, 0, 1]
+        yield ["delslice", p, 0, 1, "pop"]
+        yield ["setchildren-nonlist", p, [0]]
+        if hasattr(nodes[p], "append_named_arg"):
+            yield ["argnames", p]
+            for x in range(N):
+                for v in (-1, 2, 3):
+                    yield ["appendnamed", p, x, v]
+                    yield ["replacenamed", p, max(v, 0), x]
+                    for i in range(-n - 3, n + 2):
+                        yield ["insertnamed", p, i, x, v]
     for x in range(N):
         yield ["detach", x]
+        yield ["replace-nonnode", x]
         for y in range(N):
             yield ["replace", x, y]
+            yield ["replace", x, y, 0]
+            if not short:
+                yield ["replace-badflag", x, y]
 
 
 def exhaustive_histories(depth2):
@@ -537,7 +712,8 @@ def run(chk):
     chk.cov["rule"] = ("edit histories on a pool of 8..30 real nodes (Schedule, Routine, Loop, IfBlock, WhileLoop, "
                        "Assignment, Call, Reference, Literal, BinaryOperation, Return, OMP/ACC directives and clauses; "
                        "some with a constructor parent): 0..14 tree-building operations followed by 1..30 operations "
-                       "drawn from all 17 public operations with indices in [-len-2, len+2]; 10% of the histories "
+                       "drawn from all 24 modelled operations (incl. replace_with with keep_name_in_context, Call.*_named_arg, slice "
+                       "forms and wrongly typed arguments) with indices in [-len-2, len+2]; 10% of the histories "
                        "choose operands blindly (malformed stream); before them every single operation (all operands, all "
                        "indices in [-len-2, len+2]) on a complete Loop tree and on an IfBlock/Call tree is enumerated "
                        "(thorough: also all pairs restricted to the Loop/IfBlock/Schedule/Call nodes); non-trivial = at least 3 successful mutations "
@@ -545,9 +721,12 @@ def run(chk):
     chk.cov["exhaustive"] = False
     chk.assumptions += [
         "Node._update_node is the base no-op for every node kind used (only ACCDataDirective overrides it, and is excluded)",
-        "Call nodes carry no named arguments (argument_names is all None)",
-        "the ancestor walk of the model is bounded by the number of nodes (exact on acyclic trees; acyclicity is "
-        "evaluated on the real objects after every step)",
+        "Call argument names are drawn from a 4-word vocabulary (a, b, foo, Foo); names are valid Fortran names; "
+        "Call.__eq__/copy (which also reconcile _argument_names) are not part of the histories",
+        "operations mention allocated nodes only (ids < number of nodes); under that hypothesis the bounded ancestor "
+        "walk of the model is proved equal to the unbounded Python loop (C14_ancestor_fuel_adequate)",
+        "half of the ChildrenList method calls go through the handle `lst = node.children` taken when the pool was "
+        "built and never re-taken (also after `children =` assignments); the model runs them as HOp.via on hstep",
         "_validate_child depends only on the position and the class of the child, and is constant for positions >= "
         f"{c14_kinds.NPOS - 1} (probed up to {c14_kinds.NPOS + c14_kinds.PROBE_EXTRA - 1} by the translator)",
     ]
@@ -562,8 +741,10 @@ def run(chk):
     stats = {"ops": {}, "outcomes": {}, "negative_index": 0, "malformed_histories": 0, "max_children": 0}
 
     def note(ops, trace):
-        for op, (out, snap) in zip(ops, trace):
+        for op, (out, snap, _nm) in zip(ops, trace):
             stats["ops"][op[0]] = stats["ops"].get(op[0], 0) + 1
+            if op[0].startswith("h:"):
+                op = [op[0][2:]] + list(op[1:])
             stats["outcomes"][out] = stats["outcomes"].get(out, 0) + 1
             if any(isinstance(a, int) and a < 0 for a in op[2:3]) and op[0] in ("insert", "setitem", "delitem", "pop"):
                 stats["negative_index"] += 1
@@ -581,14 +762,14 @@ def run(chk):
         outs = driver("C14", lines)
         for (spec, ops, trace), mo in zip(records, outs):
             model = parse_model(mo)
-            agreed = len(model) == len(trace) and all(m[0] == t[0] and m[1] == t[1] for m, t in zip(model, trace))
-            nsucc = sum(1 for k, (o, s) in enumerate(trace) if o == "ok")
-            nontriv = nsucc >= 3 and (any(o != "ok" for o, _ in trace) or
+            agreed = len(model) == len(trace) and all(m[0] == t[0] and m[1] == t[1] and m[2] == t[2] for m, t in zip(model, trace))
+            nsucc = sum(1 for t in trace if t[0] == "ok")
+            nontriv = nsucc >= 3 and (any(t[0] != "ok" for t in trace) or
                                       any(isinstance(a, int) and a < 0 for op in ops for a in op[2:4] if not isinstance(a, list)))
             chk.case({"pool": spec, "ops": ops}, nontrivial=nontriv, agreed=agreed)
             if not agreed and reported[0] < 3:
                 reported[0] += 1
-                k = next((i for i, (m, t) in enumerate(zip(model, trace)) if m[0] != t[0] or m[1] != t[1]), min(len(model), len(trace)))
+                k = next((i for i, (m, t) in enumerate(zip(model, trace)) if m[0] != t[0] or m[1] != t[1] or m[2] != t[2]), min(len(model), len(trace)))
                 chk.correspondence_broken(
                     f"real ChildrenList/Node code differs from C14.step at step {k} ({ops[k] if k < len(ops) else '?'})",
                     {"pool": spec, "ops": ops[:k + 1]},
@@ -643,15 +824,81 @@ def run(chk):
 
     flush()
     chk.cov["distribution"] = stats
+    chk.cov["observations"] = observations()
     # (d) known findings: none are listed for C14 (all probed defects are repaired by the fix patch)
     for e in common.known_findings("C14"):
-        w = e.get("witness", {})
-        _, f = run_history(w["pool"], w["ops"])
-        if f:
+        fails, reproduced = stale_witness(e.get("witness", {}), kid)
+        if fails and reproduced:
             chk.known(e["what"])
+        elif fails:
+            chk.correspondence_broken("the handle model (C14.hstep) does not reproduce the known finding " + e["id"],
+                                      e.get("witness"), None, None)
+
+
+def observations():
+    """Behaviours of `replace_with` on Call children that break no C14 clause (the tree stays
+    well-formed, refusals are atomic) but replace a different child / refuse a legitimate edit.
+    Probed on the real code on every run and reported in the evidence only."""
+    out = []
+    spec = [["Call", None], ["Reference", None], ["Literal", None], ["Literal", None], ["Reference", None]]
+    nodes = build_pool(spec)
+    for op in (["append", 0, 1], ["appendnamed", 0, 2, -1], ["appendnamed", 0, 3, 2]):
+        apply_real(nodes, op)
+    r = apply_real(nodes, ["replace", 1, 4, 1])
+    kids = snapshot(nodes)[0][2]
+    out.append({"what": "call.children[0].replace_with(x) with a named LAST argument replaces the last argument, not "
+                        "the routine reference (argument_names[position - 1] is argument_names[-1])",
+                "input": "Call r(1, foo=1); routine_ref.replace_with(x)", "outcome": r, "children_after": kids,
+                "occurs": kids == [1, 2, 4], "wf": wf_reason(nodes) is None,
+                "model": "C14.cstep reproduces it (example in Props/C14.lean); no C14 clause broken"})
+    nodes = build_pool(spec)
+    for op in (["append", 0, 1], ["appendnamed", 0, 2, -1], ["appendnamed", 0, 3, 3]):
+        apply_real(nodes, op)
+    before = snapshot(nodes)
+    r = apply_real(nodes, ["replace", 3, 4, 1])
+    out.append({"what": "replace_with on an argument whose name is not all lower case raises ValueError "
+                        "(replace_named_arg compares name.lower() with the un-lowered name)",
+                "input": "Call r(1, Foo=1); arg.replace_with(x)", "outcome": r,
+                "occurs": r == "ValueError", "tree_unchanged": snapshot(nodes) == before,
+                "model": "C14.cstep reproduces it (example in Props/C14.lean); atomic, no C14 clause broken"})
+    return out
+
+
+def stale_witness(w, kid=None, verbose=False):
+    """`lst = p.children; p.children = xs; lst.append(x)` after the witness' ops.
+    -> (property fails on the real code, the handle model gives the same heap)"""
+    nodes = build_pool(w["pool"])
+    for op in w["ops"]:
+        apply_real(nodes, op)
+    st = w["stale"]
+    start = snapshot(nodes)
+    lst = nodes[st["p"]].children
+    o1 = apply_real(nodes, ["setchildren", st["p"], st["xs"]])
+    try:
+        lst.append(nodes[st["x"]])
+        o2 = "ok"
+    except Exception as e:  # noqa
+        o2 = type(e).__name__
+    why = wf_reason(nodes)
+    after = snapshot(nodes)
+    if verbose:
+        print("pool:", [f"{i}:{type(n).__name__}" for i, n in enumerate(nodes)])
+        print(f"lst = n{st['p']}.children; n{st['p']}.children = {st['xs']} -> {o1}; lst.append(n{st['x']}) -> {o2}")
+        print("tree after:", after)
+        print("property:", why or "holds")
+    reproduced = None
+    if kid is not None:
+        recs = [[kid[type(n).__name__], r[0], r[1], r[2]] for n, r in zip(nodes, start)]
+        out = parse_sx(driver("C14", [sx(["stale", recs, st["p"], st["xs"], ["append", st["x"]]])])[0])
+        mheap = [[r[0], r[1], list(r[2])] for r in out[2]]
+        reproduced = (out[0] == o1 and out[1] == (o2 if o2 != "GenerationError" else "GenerationError") and mheap == after)
+    return bool(why), reproduced
 
 
 def replay(payload):
+    if "stale" in payload:
+        fails, _ = stale_witness(payload, None, verbose=True)
+        return 1 if fails else 0
     if "pool" not in payload:
         # no input on which the property itself fails was found: re-run the disagreeing history on the
         # real code and compare its last step with the model's recorded answer
@@ -663,9 +910,13 @@ def replay(payload):
                 continue
             spec, ops = b["case"]["pool"], b["case"]["ops"]
             trace, fail = run_history(spec, ops)
-            real = [trace[-1][0], trace[-1][1]] if len(trace) == len(ops) else None
+            real = [trace[-1][0], trace[-1][1], trace[-1][2]] if len(trace) == len(ops) else None
             model = b.get("model")
-            model = [model[0], [[r[0], r[1], list(r[2])] for r in model[1]]] if model and model[1] is not None else model
+            if model and model[1] is not None:
+                model = [model[0], [[r[0], r[1], list(r[2])] for r in model[1]],
+                         [[list(e) for e in nm] for nm in model[2]] if len(model) > 2 else None]
+                if model[2] is None:
+                    real = real and real[:2] + [None]
             print("pool:", [f"{i}:{type(n).__name__}" for i, n in enumerate(build_pool(spec))])
             print("ops:", ops)
             print("model (C14.step) last step:", model)
@@ -679,8 +930,8 @@ def replay(payload):
     nodes = build_pool(spec)
     print("pool:", [f"{i}:{type(n).__name__}" for i, n in enumerate(nodes)])
     trace, fail = run_history(spec, ops)
-    for op, (out, snap) in zip(ops, trace):
-        print(" ", op, "->", out)
+    for op, t in zip(ops, trace):
+        print(" ", op, "->", t[0])
     if fail:
         print("step", fail["step"], fail["op"])
         print("observed:", fail["observed"])
